@@ -51,13 +51,23 @@ def seeded_cases(rng, n):
         def t(p="s"):
             u[0] += 1
             return pp.tok("%s%03d" % (p, u[0]))
-        kind = rng.choice(["forms", "macro_named", "twice", "fanout", "bad_utf8", "missing_deep", "abs", "defs_flow", "ignore", "dirs"])
+        kind = rng.choice(["forms", "macro_named", "twice", "fanout", "bad_utf8", "missing_deep", "abs", "defs_flow", "ignore", "dirs", "subdir"])
         files = {}
         fs_extra = {}
         incdirs = []
         ign = False
         predef = []
-        if kind == "forms":
+        topname = "top.sv"
+        if kind == "subdir":
+            # the top-level file lies in a sub-directory; a header beside it is found only through an include path
+            topname = "sub/top.sv"
+            files["sub/x.svh"] = [t("beside"), pp.nl()]
+            if rng.random() < 0.5:
+                incdirs = ["sub"]
+            if rng.random() < 0.3:
+                files["x.svh"] = [t("cwd"), pp.nl()]
+            top = [t(), pp.nl(), pp.inc("x.svh", form=rng.choice([0, 1])), pp.nl(), t(), pp.nl()]
+        elif kind == "forms":
             files["x.svh"] = [t(), pp.nl()]
             top = [t(), pp.nl(), pp.inc("x.svh", form=rng.choice([0, 1])), pp.nl(), t(), pp.nl()]
         elif kind == "macro_named":
@@ -123,8 +133,8 @@ def seeded_cases(rng, n):
                 if not any(k.startswith(d + "/") for k in files):
                     fs_extra[d] = "dir"
             top = [t(), pp.nl(), pp.inc("x.svh", form=rng.choice([0, 1])), pp.nl(), t(), pp.nl()]
-        files["top.sv"] = top
-        out.append(({"files": files, "top": "top.sv", "incdirs": incdirs, "ign": ign, "fs_extra": fs_extra, "predef": predef}, kind))
+        files[topname] = top
+        out.append(({"files": files, "top": topname, "incdirs": incdirs, "ign": ign, "fs_extra": fs_extra, "predef": predef}, kind))
         if rng.random() < 0.15:
             out[-1][0]["nl"] = "\r\n"         # CRLF line ends in every file of the case
     return out
